@@ -1001,9 +1001,14 @@ class AstEval:
                 mod = sys.modules[arg.module]
         for imp in arg.names:
             if imp.name == "*":
-                for name, value in mod.__dict__.items():
-                    if name[0] != "_":
-                        self.sym_table[name] = value
+                names = getattr(mod, "__all__", None)
+                if names is None:
+                    names = [name for name in mod.__dict__ if name[0] != "_"]
+                for name in names:
+                    if not hasattr(mod, name) and sys.modules.get(arg.module) is mod:
+                        # __all__ of a package may name submodules that are not imported yet
+                        await Function.hass.async_add_executor_job(importlib.import_module, f"{arg.module}.{name}")
+                    self.sym_table[name] = getattr(mod, name)
             else:
                 try:
                     value = getattr(mod, imp.name)
